@@ -190,7 +190,7 @@ Definition pacing_ok (c : config) : bool :=
                 [7; h] from now on a failing dial takes h ns to fail (TCP accepted, no
                        server preface; bounded by the connect deadline)
    observation of each: [ndials; t1..tn; connectivity state]
-   ResetConnectBackoff is skipped (by driver and model) while a dial is in flight.     *)
+   ResetConnectBackoff while a dial is in flight only zeroes the index (see pstep).    *)
 Definition pobs (ds : list Z) (s : pstate) : word := Z.of_nat (length ds) :: ds ++ [state_code s].
 
 Inductive pop := Pmode (m : Z) | Padv (dt : Z) | Preset | Pdrop | Pconnect | Pdelay (h : Z).
@@ -219,8 +219,11 @@ Definition pstep (c : config) (s : pstate) (op : word) : option (pstate * word) 
     match ph s with
     | PBackoff _ =>
       let s' := dial c (mkp (now s) (okmode s) 0 PIdle (fdelay s) (sticky s)) in Some (s', pobs [now s] s')
-    | PConnecting _ _ => Some (s, pobs [] s)
-    | _ => let s' := mkp (now s) (okmode s) 0 (ph s) (fdelay s) (sticky s) in Some (s', pobs [] s')
+    | _ =>
+      (* also while an attempt is in flight: backoffIdx = 0, but the attempt keeps the
+         backoffFor computed at its start and, once it has failed, waits on the NEW
+         resetBackoff channel (read after the failure): the reset does not cancel that wait *)
+      let s' := mkp (now s) (okmode s) 0 (ph s) (fdelay s) (sticky s) in Some (s', pobs [] s')
     end
   | Some Pdrop =>
     match ph s with
@@ -314,13 +317,14 @@ Definition run_nd (cfg : word) (ops impl : list word) : option (list word) :=
       (expressed through the monitor's index, which success resets)
    The pacing monitor derives the index from the observed dials only. *)
 
-Record mon := mkm { m_ok : bool; m_idx : Z; m_last : option Z; m_fresh : bool; m_dials : Z; m_delay : Z }.
-Definition minit : mon := mkm false 0 None false 0 0.
+Record mon := mkm { m_ok : bool; m_idx : Z; m_last : option Z; m_fresh : bool; m_dials : Z; m_delay : Z; m_wait : Z }.
+Definition minit : mon := mkm false 0 None false 0 0 0.
 
 (* process the dial times of one observation; [explicit] = the first dial of the op
    answers an explicit request (ResetConnectBackoff or Connect) and is not paced.
    m_last = the time at which the last failed attempt failed (dial time + the time the
-   failing dial takes, an input).  Result: monitor, clause 7 (no retry earlier than the
+   failing dial takes, an input); m_wait = Backoff(index at the start of that attempt), the
+   wait that attempt arms (a reset during the attempt zeroes the index, not this wait).  Result: monitor, clause 7 (no retry earlier than the
    failure + Backoff(i)), clause 8 (after a success the first retry comes after exactly
    Backoff(0)). *)
 Fixpoint mon_dials (c : config) (m : mon) (explicit : bool) (ds : list Z) : mon * bool * bool :=
@@ -329,7 +333,7 @@ Fixpoint mon_dials (c : config) (m : mon) (explicit : bool) (ds : list Z) : mon 
   | t :: r =>
     let paced := match m_last m with Some _ => negb explicit | None => false end in
     let ok7 := match m_last m with
-               | Some t0 => if explicit then t0 <=? t else t0 + bo c (m_idx m) <=? t
+               | Some t0 => if explicit then t0 <=? t else t0 + m_wait m <=? t
                | None => true
                end in
     let ok8 := match m_last m with
@@ -338,8 +342,8 @@ Fixpoint mon_dials (c : config) (m : mon) (explicit : bool) (ds : list Z) : mon 
                end in
     let i1 := if paced then m_idx m + 1 else m_idx m in
     let tf := if m_delay m <=? 0 then t else t + fail_after c i1 (m_delay m) in
-    let m1 := if m_ok m then mkm (m_ok m) 0 None true (m_dials m + 1) (m_delay m)
-              else mkm (m_ok m) i1 (Some tf) (if paced then false else m_fresh m) (m_dials m + 1) (m_delay m) in
+    let m1 := if m_ok m then mkm (m_ok m) 0 None true (m_dials m + 1) (m_delay m) (bo c i1)
+              else mkm (m_ok m) i1 (Some tf) (if paced then false else m_fresh m) (m_dials m + 1) (m_delay m) (bo c i1) in
     let '(m2, a, b) := mon_dials c m1 false r in
     (m2, ok7 && a, ok8 && b)
   end.
@@ -364,20 +368,15 @@ Definition mon_step (c : config) (m : mon) (op o : word) : option (mon * bool * 
   match split_pobs o with
   | Some (ds, st) =>
     let m0 := match pop_of op with
-              | Some (Pmode md) => mkm (negb (md =? 0)) (m_idx m) (m_last m) (m_fresh m) (m_dials m) (m_delay m)
-              | Some Preset =>
-                (* skipped while a dial is in flight: no dial although a failure is pending *)
-                match ds, m_last m with
-                | [], Some _ => m
-                | _, _ => mkm (m_ok m) 0 (m_last m) false (m_dials m) (m_delay m)
-                end
-              | Some (Pdelay h) => mkm (m_ok m) (m_idx m) (m_last m) (m_fresh m) (m_dials m) h
+              | Some (Pmode md) => mkm (negb (md =? 0)) (m_idx m) (m_last m) (m_fresh m) (m_dials m) (m_delay m) (m_wait m)
+              | Some Preset => mkm (m_ok m) 0 (m_last m) false (m_dials m) (m_delay m) (m_wait m)
+              | Some (Pdelay h) => mkm (m_ok m) (m_idx m) (m_last m) (m_fresh m) (m_dials m) h (m_wait m)
               | _ => m end in
     let explicit := match pop_of op with Some Preset => true | Some Pconnect => true | _ => false end in
     let '(m1, ok7, ok8) := mon_dials c m0 explicit ds in
     (* a dropped READY connection leaves no pending wait *)
     let m2 := match pop_of op with
-              | Some Pdrop => if st =? 0 then mkm (m_ok m1) (m_idx m1) None (m_fresh m1) (m_dials m1) (m_delay m1) else m1
+              | Some Pdrop => if st =? 0 then mkm (m_ok m1) (m_idx m1) None (m_fresh m1) (m_dials m1) (m_delay m1) (m_wait m1) else m1
               | _ => m1 end in
     Some (m2, ok7, ok8)
   | None => None
